@@ -295,10 +295,22 @@ def bump : DVal → DVal
   | .slice xs => .slice xs.dropLast
   | d => d
 
+/-- modify the first leaf reachable through first elements / pointees (the table PostTransform `incdeep`) -/
+def bumpDeep : DVal → DVal
+  | .slice (x :: xs) => .slice (bumpDeep x :: xs)
+  | .ptr (some x) => .ptr (some (bumpDeep x))
+  | .slice [] => .slice []
+  | .ptr none => .ptr none
+  | .struct fs => .struct fs
+  | .custom (.int .int n) => .custom (.int .int (if n < 1000000 then n + 1 else n))
+  | .custom (.str s) => .custom (.str (s ++ "!"))
+  | d => bump d
+
 /-- `(p ID KIND ARGS...)` -/
 def post? : Sexp → Option Post
   | .list [.atom "p", id, .atom "id"] => do pure { id := ← id.nat?, run := fun d => (d, none) }
   | .list [.atom "p", id, .atom "inc"] => do pure { id := ← id.nat?, run := fun d => (bump d, none) }
+  | .list [.atom "p", id, .atom "incdeep"] => do pure { id := ← id.nat?, run := fun d => (bumpDeep d, none) }
   | .list [.atom "p", id, .atom "set", x] => do
     let x ← dval? x
     pure { id := ← id.nat?, run := fun _ => (x, none) }
